@@ -27,7 +27,7 @@ RULE = ("cases: histories of 6-30 calls over 2-5 live objects (plog models, conf
         "bounds/values colliding under the library's hashes, and every model/configurator returned by assume/reduce/negate/add/round trips); ops: "
         + ", ".join(histops.PLOG_OPS + histops.CFG_OPS) + "; arguments name leaf and sub-proposition ids. non-trivial: the history touches >=2 objects and "
         "contains a call naming a sub-proposition id or >=2 configurators; distinct by digest of the op sequence")
-BUDGET = {"quick": (12, 50, 90), "thorough": (16, 1000, 1200)}
+BUDGET = {"quick": (12, 100, 90), "thorough": (16, 1000, 1200)}
 MANDATORY = ["judged:purity", "judged:history-independence", "count:twin-configurators", "count:derived-objects", "count:calls-naming-compound-id"] + \
             ["count:op:" + o for o in histops.PLOG_OPS + histops.CFG_OPS]
 
